@@ -38,7 +38,7 @@ def compositions(n):
         yield parts
 
 
-def write_flat(d, A, parts, offset=0, ext='.dat', stem='rec', same_name=False):
+def write_flat(d, A, parts, offset=0, ext='.dat', stem='rec', same_name=False, stray=False):
     paths = []
     i = 0
     for k, p in enumerate(parts):
@@ -51,6 +51,10 @@ def write_flat(d, A, parts, offset=0, ext='.dat', stem='rec', same_name=False):
         with open(path, 'wb') as f:
             f.write(bytes((7 * j + 1) % 256 for j in range(offset)))
             f.write(np.ascontiguousarray(A[i:i + p]).tobytes())
+            if stray:
+                # an incomplete trailing row (interrupted acquisition): fewer bytes than one row, ignored by the reader
+                row = A.shape[1] * A.dtype.itemsize
+                f.write(b'\x5b' * max(1, min(row - 1, [3, 2, 1][k % 3] * row // 4)))
         i += p
         paths.append(path)
     assert i == A.shape[0]
